@@ -143,8 +143,7 @@ func (l *fileBasedLoader) find(c px.Context, name px.TypedName) px.LoaderEntry {
 				if smartPath == nil {
 					return nil
 				}
-				smartPath.Instantiator()(c, l, name, origins)
-				entry := l.GetEntry(name)
+				entry := l.instantiate(c, smartPath, name, origins)
 				if entry != nil {
 					if _, ok := entry.Value().(px.TypeSet); ok {
 						return entry
